@@ -101,7 +101,7 @@ func coqCfg(c caseSpec) string {
 	for _, h := range c.NoChain {
 		nc = append(nc, zlit(h))
 	}
-	return hlib.App("mkCfg", "2147483648", zlit(c.TimeoutMs), hlib.List(nc))
+	return hlib.App("mkCfg", "2147483648", zlit(c.TimeoutMs), hlib.List(nc), hlib.Bool(c.NoVal))
 }
 
 func nontrivial(obs []obsT) bool {
